@@ -210,6 +210,9 @@ def run(ctx):
         o["proj"]["bver"] = rnd.choice([[1, 9, 0, 0], [2, 1, 2, 1]])
         o["proj"]["time"] = rnd.choice([0, 5, -7])
         enc.append({"id": "ref%d" % i, "events": [{"op": "encode", "obj": o}]})
+    for nm, obj in gen.boundary_sources(spec):      # the boundary projects encoded by the spec as well (not by the library's writer)
+        if isinstance(obj, api.Project):
+            enc.append({"id": "ref-" + nm, "events": [{"op": "encode", "obj": fmt.projection.project_any(obj, spec)}]})
     res = fmt.validate(ctx, enc, "c04_encode", [], path)
     for tr in enc:
         msgs = res[tr["id"]].get("other", [])
